@@ -77,7 +77,10 @@ def refresh_links(name):
     for e in want:
         p = os.path.join(dst, e)
         if not os.path.lexists(p):
-            os.symlink(os.path.join(src, e), p)
+            try:
+                os.symlink(os.path.join(src, e), p)
+            except FileExistsError:        # another check running at the same time made it
+                pass
     # lock file: same resolution as the repository
     lock_src = os.path.join(util.REPO, "Cargo.lock")
     lock_dst = os.path.join(crate_dir(name), "Cargo.lock")
